@@ -152,8 +152,8 @@ def p1 : Routing.Id := List.replicate 31 1 ++ [2]
 /-- two local chunks, a remote manifest and a provider contact, all expiring by `t0 + 2 s`; the expiry of
     `c1` is first noticed by a lookup, that of `c2`'s provider entry by a probe -/
 def preEx : List Op :=
-  [.store "c1" 2 none, .store "c2" 2 none, .ingest "c3" 1700001002000000000,
-   .announce "c2" 1700001002000000000 "p1" p1 "10.0.0.9:4000" 2 none,
+  [.store "c1" 2 none, .store "c2" 2 none, .ingest "c3" 1700001002000000000 false,
+   .announce "c2" 1700001002000000000 false "p1" p1 "10.0.0.9:4000" 2 none,
    .adv 2000000000, .lookup "c1", .probe "c2"]
 
 example : ChunkStore.SaneCfg cfgEx.node := ⟨by decide, by decide⟩
@@ -187,8 +187,18 @@ example : (reach cfgEx t0Ex [.store "c1" 2 none, .adv 2500000000, .lookup "c1", 
 /-- the node's own announcement outliving the record (announced 4 s, stored 2 s) is withdrawn by the tick
     although it has not expired, while the other provider of the chunk stays -/
 example : let s := (reach cfgEx t0Ex [.store "c1" 2 none, .reannounce "c1" 4 none,
-      .announce "c1" 1700001008000000000 "p1" p1 "10.0.0.9:4000" 6 none, .adv 2000000000, .tick]).s
+      .announce "c1" 1700001008000000000 false "p1" p1 "10.0.0.9:4000" 6 none, .adv 2000000000, .tick]).s
     (s.locs "c1").map (fun l => l.holders.map (·.peer)) = some ["p1"] ∧ s.recs = [] := by decide +kernel
+
+/-- repair C11-1 in the model: a manifest for a chunk the node holds is adopted only if it stands for the same
+    content and key (`same`); otherwise cache, key shares and plan keep the lifetimes of the local store, while the
+    announcing provider is still recorded -/
+example :
+    (reach cfgEx t0Ex [.store "c1" 2 none, .ingest "c1" 1700001009000000000 false]).s.cache = [("c1", 1700001002000000000)] ∧
+    (reach cfgEx t0Ex [.store "c1" 2 none, .ingest "c1" 1700001009000000000 true]).s.cache = [("c1", 1700001009000000000)] ∧
+    (let s := (reach cfgEx t0Ex [.store "c1" 2 none, .announce "c1" 1700001009000000000 false "p1" p1 "10.0.0.9:4000" 5 none]).s
+     s.cache = [("c1", 1700001002000000000)] ∧ (s.locs "c1").map (fun l => l.holders.map (·.peer)) = some ["self", "p1"]) := by
+  decide +kernel
 
 /-- the cleanup gate at the boundary: one nanosecond before `cleanup_interval` has elapsed the expired chunk
     is not swept, at the boundary it is -/
